@@ -23,7 +23,7 @@ LEVEL = "exploration"
 RULE = (
     "hierarchies of 1-4 classes exhaustively over (bases subset of earlier classes, Media form in {absent, empty, js str, js list, css "
     "list, css dict}, extend in {absent, True, False, [earlier classes]}) with a 3-file name pool per medium, plus seeded hierarchies of "
-    "5-6 classes incl. diamonds; each accessed in 4 first-access orders; pair-rule hierarchies over inline / *_file / None / both; module "
+    "5-6 classes incl. diamonds; each accessed in 4 first-access orders; pair-rule hierarchies (template, js, css AND the *_file members read back) over inline / *_file / None / both; module "
     "based components with files next to the module; distinct by hierarchy description; non-trivial = >=2 classes with Media or >=1 pair override"
 )
 ASSUMPTIONS = [
@@ -317,6 +317,20 @@ def run_pair_case(env, rec, case):
                     val = fmt % (j % 4)
                     break
             exp[attr] = val
+            # the *_file member of the pair comes from the same (nearest defining) class: its file name, or None when that class
+            # defined the inlined member
+            fval = None
+            for k in cls.__mro__:
+                j = next((jj for jj, cc in enumerate(classes) if cc is k), None)
+                if j is None:
+                    continue
+                o = spec[j][attr]
+                if o == "inline":
+                    break
+                if o == "file":
+                    fval = f"c16files/f{j % 4}.{ext}"
+                    break
+            exp[attr + "_file"] = fval
         expected.append(exp)
     order = case.get("order") or list(range(len(classes)))
     for i in order:
@@ -330,6 +344,15 @@ def run_pair_case(env, rec, case):
             rec.observe("pair-reads")
             if got != expected[i][attr]:
                 rec.violation("wrong-pair-value", case, {"what": f"class {i}.{attr} = {got!r}, nearest definition gives {expected[i][attr]!r}"})
+                return
+            try:
+                gotf = getattr(cls() if case.get("via_instance") else cls, attr + "_file")
+            except Exception as e:  # noqa: BLE001
+                rec.violation("pair-access-raised-" + type(e).__name__, case, {"what": f"class {i}.{attr}_file: {e}"})
+                return
+            rec.observe("pair-reads")
+            if gotf != expected[i][attr + "_file"]:
+                rec.violation("wrong-pair-file-value", case, {"what": f"class {i}.{attr}_file = {gotf!r}, nearest definition gives {expected[i][attr + '_file']!r}"})
                 return
 
 
